@@ -516,12 +516,6 @@ def run_check(prop, tier, seed, replay=None, jobs=None):
             'replay_cmd': f'./check {prop} --replay {path}'})
         violations.append((path, suffix))
 
-    if crashes:
-        # a crash of the harness on a generated case: the implementation did something the lane cannot even
-        # canonicalise (e.g. an exception from a reader that never raises on the unchanged tree)
-        c = crashes[0]
-        emit(c['case'], 'lane-crash', {'traceback': c['crash']}, suffix=' no-failing-input-found')
-
     # every oracle failure is classified by its signature; unknown signatures are violations (shrunk first)
     reported_sigs = set()
     unknown = []
@@ -590,6 +584,12 @@ def run_check(prop, tier, seed, replay=None, jobs=None):
             raise
         except Exception:  # noqa: BLE001 - the widened search is best effort
             pass
+    if crashes and not violations:
+        # a crash of the harness on a generated case: the implementation did something the lane cannot even
+        # canonicalise (e.g. an exception from a reader that never raises on the unchanged tree).  Reported only when
+        # no failing input was found: otherwise the failing inputs above are the report.
+        c = crashes[0]
+        emit(c['case'], 'lane-crash', {'traceback': c['crash']}, suffix=' no-failing-input-found')
     if corr_breaks and not violations:
         # correspondence broken on cases where the oracle saw nothing (or only listed findings)
         rest = [r for r in corr_breaks
